@@ -50,7 +50,7 @@ def hval_cases(rng, n, op="hval"):
     for _ in range(max(20, n // 10)):
         nm = "N" * rng.choice([1, 7, 20, 40, 60, 74])
         k = rng.choice([1, 2, 3, 10, 40, 150])
-        hi = rng.choice([3, 10, 30, 75])
+        hi = rng.choice([3, 10, 30, 75, 77, 300, 890])      # up to 77: C02.text_value_folded; up to 900: C02.text_value_within_998
         ws = ["".join(rng.choice(vis if rng.random() < 0.5 else "abcxyz") for _ in range(rng.randint(1, hi))) for _ in range(k)]
         ws[0] = ws[0][:max(1, 78 - len(nm) - 2)]
         cases.append(f"{op}\t{hexs(nm)}\t{hexs(' '.join(ws))}")
